@@ -38,6 +38,7 @@ var fieldPkgs = map[string]bool{".": true, "hamt": true, "file": true, "iter": t
 type report struct {
 	Files            map[string]int `json:"rewrites_per_file"`
 	FieldRewrites    int            `json:"field_rewrites"`
+	GlobalRewrites   int            `json:"package_var_rewrites"`
 	MapRanges        []string       `json:"map_ranges"`
 	SyncImports      []string       `json:"sync_imports_rewritten"`
 	Uninstrumented   []string       `json:"uninstrumented_sites"`
@@ -308,7 +309,22 @@ func rewriteFile(fset *token.FileSet, f *ast.File, info *types.Info, doFields bo
 			return true
 		})
 	}
+	// package-level variables of the module (instrumented packages only):
+	// `x` / `pkg.X` -> *verifrt.R|W|M(&x, site)
+	gplan := map[ast.Expr]string{}
+	if doFields {
+		planGlobals(fset, f, info, writes, gplan, rep)
+	}
 	rewriteExpr := func(e ast.Expr) ast.Expr {
+		if p, ok := gplan[e]; ok {
+			count++
+			rep.GlobalRewrites++
+			call := &ast.CallExpr{
+				Fun:  &ast.SelectorExpr{X: ast.NewIdent("verifrt"), Sel: ast.NewIdent(p[:1])},
+				Args: []ast.Expr{&ast.UnaryExpr{Op: token.AND, X: e}, &ast.BasicLit{Kind: token.STRING, Value: strconv.Quote(p[2:])}},
+			}
+			return &ast.ParenExpr{X: &ast.StarExpr{X: call}}
+		}
 		se, ok := e.(*ast.SelectorExpr)
 		if !ok {
 			return e
@@ -378,7 +394,7 @@ func rewriteFile(fset *token.FileSet, f *ast.File, info *types.Info, doFields bo
 		count++
 		return true
 	})
-	if len(plan) > 0 {
+	if len(plan) > 0 || len(gplan) > 0 {
 		replaceInNode(f, rewriteExpr)
 	}
 	return count
@@ -407,4 +423,128 @@ func pure(e ast.Expr) bool {
 		return pure(x.X)
 	}
 	return false
+}
+
+
+// isPkgVar reports whether obj is a package-level variable of the module.
+func isPkgVar(obj types.Object) bool {
+	v, ok := obj.(*types.Var)
+	if !ok || v.IsField() || v.Pkg() == nil {
+		return false
+	}
+	return v.Parent() == v.Pkg().Scope() && strings.HasPrefix(v.Pkg().Path(), modPath) && !strings.Contains(v.Pkg().Path(), "/verifrt")
+}
+
+func refType(t types.Type) bool {
+	switch t.Underlying().(type) {
+	case *types.Pointer, *types.Interface, *types.Map, *types.Slice, *types.Chan:
+		return true
+	}
+	return false
+}
+
+// planGlobals finds references to package-level variables and classifies them
+// as read (R), write (W) or use by a possibly mutating callee (M).
+func planGlobals(fset *token.FileSet, f *ast.File, info *types.Info, fieldWrites map[*ast.SelectorExpr]bool, gplan map[ast.Expr]string, rep *report) {
+	var stack []ast.Node
+	writeTargets := map[ast.Expr]bool{}
+	ast.Inspect(f, func(n ast.Node) bool {
+		switch s := n.(type) {
+		case *ast.AssignStmt:
+			for _, l := range s.Lhs {
+				markWriteExpr(l, writeTargets)
+			}
+		case *ast.IncDecStmt:
+			markWriteExpr(s.X, writeTargets)
+		}
+		return true
+	})
+	ast.Inspect(f, func(n ast.Node) bool {
+		if n == nil {
+			stack = stack[:len(stack)-1]
+			return true
+		}
+		defer func() { stack = append(stack, n) }()
+		var expr ast.Expr
+		var obj types.Object
+		switch x := n.(type) {
+		case *ast.Ident:
+			// skip idents that are the Sel of a selector or a package-qualified
+			// reference (handled at the SelectorExpr)
+			if len(stack) > 0 {
+				if se, ok := stack[len(stack)-1].(*ast.SelectorExpr); ok && (se.Sel == x) {
+					return true
+				}
+				if kv, ok := stack[len(stack)-1].(*ast.KeyValueExpr); ok && kv.Key == x {
+					return true
+				}
+			}
+			obj = info.Uses[x]
+			expr = x
+		case *ast.SelectorExpr:
+			if id, ok := x.X.(*ast.Ident); ok {
+				if _, isPkg := info.Uses[id].(*types.PkgName); isPkg {
+					obj = info.Uses[x.Sel]
+					expr = x
+				}
+			}
+		}
+		if obj == nil || !isPkgVar(obj) {
+			return true
+		}
+		if isSyncType(obj.Type()) {
+			return true
+		}
+		var parent ast.Node
+		if len(stack) > 0 {
+			parent = stack[len(stack)-1]
+		}
+		pos := fset.Position(expr.Pos())
+		site := fmt.Sprintf("%s:%d:var %s", filepath.Base(pos.Filename), pos.Line, obj.Name())
+		// address taken or declared here: leave alone
+		if u, ok := parent.(*ast.UnaryExpr); ok && u.Op == token.AND {
+			rep.Uninstrumented = append(rep.Uninstrumented, site+" (address taken)")
+			return true
+		}
+		if _, ok := parent.(*ast.ValueSpec); ok {
+			// initialiser expressions reference other globals before any hook exists
+		}
+		kind := "R"
+		if writeTargets[expr] {
+			kind = "W"
+		} else if refType(obj.Type()) {
+			switch p := parent.(type) {
+			case *ast.SelectorExpr:
+				// x.Method(...) : receiver use
+				if len(stack) > 1 {
+					if call, ok := stack[len(stack)-2].(*ast.CallExpr); ok && call.Fun == p {
+						if sel := info.Selections[p]; sel != nil && sel.Kind() == types.MethodVal {
+							kind = "M"
+						}
+					}
+				}
+			case *ast.CallExpr:
+				for _, a := range p.Args {
+					if a == expr {
+						kind = "M"
+					}
+				}
+			}
+		}
+		gplan[expr] = kind + "|" + site
+		return true
+	})
+}
+
+func markWriteExpr(e ast.Expr, w map[ast.Expr]bool) {
+	switch x := e.(type) {
+	case *ast.Ident:
+		w[x] = true
+	case *ast.SelectorExpr:
+		w[x] = true
+	case *ast.IndexExpr:
+		markWriteExpr(x.X, w)
+	case *ast.ParenExpr:
+		markWriteExpr(x.X, w)
+	}
 }
